@@ -4,7 +4,7 @@
 # (outside /repo and /verif), then stores it under /verif/seeded/<seed-id>/.
 set -u
 export GOFLAGS=-mod=mod GOPROXY=off GOSUMDB=off GOTOOLCHAIN=local
-src=$1; id=$2; prop=$3; pkg=$4
+src=$1; id=$2; prop=$3; pkg=$4; extra=${5:-}
 wt=$(mktemp -d /tmp/confirm-XXXXXX); rmdir $wt
 git -C /repo worktree add -q --detach $wt HEAD || exit 2
 cleanup() { git -C /repo worktree remove --force $wt 2>/dev/null; rm -rf $wt; }
@@ -13,14 +13,14 @@ cd $wt
 demo=$(ls $src/*_test.go 2>/dev/null | head -1)
 res_build=fail; res_suite=fail; res_demo_with=unknown; res_demo_without=unknown
 git apply $src/patch.diff || { echo "PATCH DOES NOT APPLY"; exit 3; }
-if go build ./... 2>/tmp/ingest_build.log; then res_build=ok; fi
-if go test -vet=off -count=1 ./... >/tmp/ingest_suite.log 2>&1; then res_suite=ok; fi
+if go build ./... 2>/tmp/ingest_${id}_build.log; then res_build=ok; fi
+if go test -vet=off -count=1 ./... >/tmp/ingest_${id}_suite.log 2>&1; then res_suite=ok; fi
 cp $demo $pkg/zz_seed_demo_test.go
-if go test -vet=off -count=1 -run 'Seed' ./$pkg/ >/tmp/ingest_demo_with.log 2>&1; then res_demo_with=pass; else res_demo_with=fail; fi
+if go test $extra -vet=off -count=1 -run 'Seed' ./$pkg/ >/tmp/ingest_${id}_demo_with.log 2>&1; then res_demo_with=pass; else res_demo_with=fail; fi
 rm $pkg/zz_seed_demo_test.go
 git checkout -q -- . 
 cp $demo $pkg/zz_seed_demo_test.go
-if go test -vet=off -count=1 -run 'Seed' ./$pkg/ >/tmp/ingest_demo_without.log 2>&1; then res_demo_without=pass; else res_demo_without=fail; fi
+if go test $extra -vet=off -count=1 -run 'Seed' ./$pkg/ >/tmp/ingest_${id}_demo_without.log 2>&1; then res_demo_without=pass; else res_demo_without=fail; fi
 rm $pkg/zz_seed_demo_test.go
 echo "$id: build=$res_build suite=$res_suite demo_with_patch=$res_demo_with demo_without_patch=$res_demo_without"
 if [ $res_build = ok ] && [ $res_suite = ok ] && [ $res_demo_with = fail ] && [ $res_demo_without = pass ]; then
@@ -40,5 +40,5 @@ json.dump({"id":id,"breaks_property":prop,"needs_to_manifest":"see README.md (wr
 PY
   echo "STORED /verif/seeded/$id"
 else
-  echo "NOT CONFIRMED (see /tmp/ingest_*.log)"; tail -5 /tmp/ingest_demo_with.log; exit 4
+  echo "NOT CONFIRMED (see /tmp/ingest_${id}_*.log)"; tail -5 /tmp/ingest_${id}_demo_with.log; exit 4
 fi
